@@ -59,6 +59,17 @@ def run(ctx):
         ok = R.exc is not None and not muts and len(R.mineral.attrs["orientations"]) == R.nsnap and len(R.mineral.attrs["fractions"]) == R.nsnap
         ctx.ob("C01.fail-untouched", f"solver failure at step {fail_at}", ok,
                f"exception={R.exc!r} history mutations={[(k, w) for _, k, w, _ in muts]}", loc)
+    # a mineral whose phase is not part of the assemblage of the call: the update is either refused (nothing stored) or it is an update
+    # like any other (exactly one snapshot appended) - never a normal return that stores nothing
+    for phase, fabric, assemblage in (("enstatite", "enstatite_AB", ("olivine",)), ("olivine", "olivine_A", ("enstatite",))):
+        R = driver.run_update(ctx, phase=phase, fabric=fabric, N=2, nsteps=2, assemblage=assemblage)
+        muts = driver.history_mutations(R)
+        no = len(R.mineral.attrs["orientations"]) - R.nsnap, len(R.mineral.attrs["fractions"]) - R.nsnap
+        if R.exc is not None:
+            ok, why = not muts and no == (0, 0), f"refused with {R.exc.typename}; history mutations {[(k, w) for _, k, w, _ in muts]}"
+        else:
+            ok, why = no == (1, 1), f"returned normally and stored {no[0]} orientation / {no[1]} volume snapshot(s) (an accepted update appends exactly one of each)"
+        ctx.ob("C01.append-once", f"{phase} mineral, assemblage {assemblage}", ok, why, loc)
     rhs_manifold(ctx, loc)
     who_may_write(ctx)
     initial(ctx)
